@@ -437,7 +437,7 @@ func c16Run(c *Ctx) {
 
 func init() {
 	addCheck(&Check{Flows: []flowOracle{flowPinned}, ID: "C16", Level: "exploration", Workers: 1,
-		Rule: "all assignments of Call-ID (4) x from-tag (5 incl. absent) x to-tag (5) x From URI (10, incl. an escaped colon in the user against user + password) x To URI (10), each rendered in both orientations, as request and response, with every single decoration (thorough: every subset of 8 decorations); the partition induced by GetDialog() must coincide with the partition induced by the reference key (Call-ID, unordered pair of (tag, URI core)) - checked by hashing both keys, which is equivalent to comparing all pairs; then 12000 (thorough 60000) further dialogs (pairwise distinct identifiers) after which the whole enumeration is repeated and every identifier must be the one computed the first time; plus, through a running proxy whose service has a hosts section, every ordered pair of 6 URIs that differ in host spelling (configured name, its address, another name with the same address, with / without port) on the From and on the To side: two dialogs established through different backends keep their own pins; non-trivial = message carries both tags",
+		Rule: "all assignments of Call-ID (4) x from-tag (5 incl. absent) x to-tag (5) x From URI (10, incl. an escaped colon in the user against user + password) x To URI (10), each rendered in both orientations, as request and response, with every single decoration and upper-case compact names (thorough: every subset of 8 decorations); the partition induced by GetDialog() must coincide with the partition induced by the reference key (Call-ID, unordered pair of (tag, URI core)) - checked by hashing both keys, which is equivalent to comparing all pairs; then 12000 (thorough 60000) further dialogs (pairwise distinct identifiers) after which the whole enumeration is repeated and every identifier must be the one computed the first time; plus, through a running proxy whose service has a hosts section, every ordered pair of 6 URIs that differ in host spelling (configured name, its address, another name with the same address, with / without port) on the From and on the To side: two dialogs established through different backends keep their own pins; non-trivial = message carries both tags",
 		Run:  c16Run,
 		Replay: func(c *Ctx, raw json.RawMessage) string {
 			var e2e map[string]string
